@@ -451,6 +451,7 @@ class Engine(Interp):
             self.frame = fr
             self.depth = 0
             self.ghost = {}
+            self.catches_index = "IndexError" in c.raises     # an out-of-range index is then an exceptional outcome
             self.global_cache = {}
             self._fresh_ids = set()
             self._fresh_keep = []
